@@ -95,10 +95,15 @@ impl Parser {
 
         let class_type = input.user_data().get_type_of_executing_class();
 
-        if !expected_return_type.eq_complex(
-            &Cow::Borrowed(supplied_type),
-            &TypecheckFlags::use_class(class_type).lhs_unwrap(true),
-        ) {
+        // a value that may be nil is never returned where the declared type does not admit nil
+        let nil_for_plain_type = supplied_type.is_optional().0 && !expected_return_type.is_optional().0;
+
+        if nil_for_plain_type
+            || !expected_return_type.eq_complex(
+                &Cow::Borrowed(supplied_type),
+                &TypecheckFlags::use_class(class_type).lhs_unwrap(true),
+            )
+        {
             return Err(vec![new_err(
                 input.as_span(),
                 &input.user_data().get_source_file_name(),
